@@ -231,6 +231,14 @@ def run_check(modname, tier, seed, jobs):
         if fnd.get("status") == "open":
             for sig in fnd.get("sigs", []):
                 open_sigs[sig] = fnd
+            # long lists of failing inputs live in a committed side file
+            # (one signature per line) next to known_findings.json
+            if fnd.get("sigs_file"):
+                with open(os.path.join(ROOT, fnd["sigs_file"]),
+                          encoding="utf-8") as fin_sigs:
+                    for line in fin_sigs:
+                        if line.strip():
+                            open_sigs[line.rstrip("\n")] = fnd
     known_hits = {}
     new_viol = []
     for vio in tot["viol"]:
@@ -244,6 +252,15 @@ def run_check(modname, tier, seed, jobs):
             hits = known_hits[fnd["id"]]
             print(f"KNOWN-FINDING: property={prop} {fnd['id']}: {fnd['what']} "
                   f"({len(hits)} case(s), e.g. {hits[0].get('key')})")
+    dump = os.environ.get("VERIF_DUMP_VIOL")
+    if dump:
+        # development aid (triage): every violation, known or not, one per line
+        with open(dump, "w", encoding="utf-8") as fout:
+            for vio in tot["viol"]:
+                fout.write(json.dumps({
+                    "sig": vio.get("sig"), "group": vio.get("group"),
+                    "key": vio.get("key"), "msg": str(vio.get("msg"))[:4000],
+                    "known": vio.get("sig") in open_sigs}, default=str) + "\n")
     # ---- violations ----------------------------------------------------
     new_viol.sort(key=lambda v: (str(v.get("sig")), len(str(v.get("key"))),
                                  str(v.get("key"))))
